@@ -16,10 +16,18 @@ list(s), list(reversed(s)), len(s), first, last, plus the operation's own result
      knows its elements up to equality, so an equal object arriving again changes nothing; D and K (list level).
      re-add loop (levels eqv / inst, ops iter-readd / riter-readd, D only): the loop body removes the visited element and puts
      it back; every other element is still visited exactly once, in order, and the re-added ones are last, in that order.
+     no collection at all (every level-abs / exotic step, D only): `==` holds EXACTLY for ordered collections with the same
+     elements in the same order, so the set - in whatever state, the empty one above all - never compares equal to None, 0,
+     False, 0.0, 0j, a falsy non-iterable object, 1, True, 2.5, object(), Ellipsis, a type, a function (s == x, x == s, s != x,
+     x != s; a refused comparison - TypeError - is "not equal"); signature eq-noncollection.
+     the set as the RIGHT operand (level 'refl' and every level-abs | & - ^ step, D only): x - s, x & s, x | s, x ^ s with x a
+     plain list / tuple / set / frozenset hold the elements the mathematical operation gives, both operands are left alone;
+     signature rbinop-content.
   K  (correspondence): the same observables from lean/PyxModel/OSet.lean (abstract level) and, for
      add/discard/iter-rm sequences, lean/PyxModel/OSetPtr.lean (pointer level).
 """
 import itertools
+import operator
 
 from sexp import Sym, dumps
 
@@ -41,10 +49,19 @@ RULE = ('exhaustive op sequences (quick: length 3, thorough: length 4) over a fi
         'in turn, small integers) and every operand is a freshly built EQUAL object: exhaustively which of three held elements '
         'arrives again by add / |= / construction, plus random sequences (non-trivial: a held element that is not last arrived '
         'again); re-add loops (the body removes the visited element by discard / remove / -= and adds it again by add / |=): '
-        'exhaustively every non-empty subset of three elements x six bodies x both directions, plus random sequences')
+        'exhaustively every non-empty subset of three elements x six bodies x both directions, plus random sequences; '
+        'comparison with things that are no collection (D only): after EVERY step of every level-abs and exotic case the set is '
+        'compared (s == x, x == s, s != x, x != s) with one of None / 0 / False / 0.0 / 0j / a falsy non-iterable object / 1 / True / '
+        '2.5 / object() / Ellipsis / a type / a builtin function in rotation, and with all six falsy ones whenever the set is empty '
+        '(so every way of emptying a set in the exhaustive family is covered); the set as RIGHT operand (D only): in every '
+        'level-abs | & - ^ step the reflected operation x OP s is run as well with x a list / tuple / set / frozenset of the '
+        'arguments (kind in rotation), and level refl: exhaustively s built from every ordered selection of <= 3 of 3 elements, '
+        'then nothing / discard / pop-first / add-pop-add, x every ordered selection (plus two lists with duplicates) as list, '
+        'tuple, set and frozenset, all of x - s, x & s, x | s, x ^ s, on both classes, plus random longer histories and operands '
+        'over 12 elements (non-trivial: both operands non-empty and different)')
 EXHAUSTIVE = {'quick': True, 'thorough': True}
 ASSUMPTIONS = ['elements are hashable values compared by ==; the universe is small integers (level inst: instances of a '
-               'metamodel, compared by identity; levels exotic / str: D only)',
+               'metamodel, compared by identity; levels exotic / str / refl and the comparisons with non-collections: D only)',
                'CPython 3.12 collections.abc.MutableSet mixins are modelled from their source, tied by correspondence']
 CHUNK = 4000
 CASE_TIMEOUT_S = 5
@@ -240,6 +257,177 @@ def generate(ctx):
         else:
             case.update(level='eqv', flavour=r.choice(flavours), n=r.randint(2, 6))
         yield case
+    # D-only: the set as the RIGHT operand of - & | ^ (left operand a plain list / tuple / set / frozenset)
+    for case in _refl_cases(ctx):
+        yield case
+
+
+LEFT_KINDS = ['list', 'tuple', 'set', 'frozenset']
+BINOPS = ['sub', 'and', 'or', 'xor']
+
+
+def _refl_cases(ctx):
+    """the ordered set / query set as the RIGHT operand of - & | ^, the left one a plain list / tuple / set / frozenset (python
+    then asks the ordered set's reflected operator).  D only."""
+    sel = [list(p) for n in range(4) for p in itertools.permutations([0, 1, 2], n)]
+    tails = [[], [['discard', 0]], [['pop-first']], [['add', 2], ['pop-last'], ['add', 1]]]
+    for cls in ('OrderedSet', 'QuerySet'):
+        for right in sel:
+            for tail in tails:
+                for kind in LEFT_KINDS:
+                    for left in sel + [[1, 1], [0, 2, 0]]:
+                        yield {'cls': cls, 'level': 'refl', 'ops': [['ctor'] + right] + tail, 'left_kind': kind, 'left': left,
+                               'binops': list(BINOPS)}
+    rng = ctx.rng.fork('refl')
+    for i in range(ctx.pick(400, 6000)):
+        r = rng.fork(i)
+        univ = U if r.random() < 0.4 else list(range(12))
+        ops = [['ctor'] + [r.choice(univ) for _ in range(r.randint(0, 6))]] if r.random() < 0.6 else []
+        for _ in range(r.randint(0, 10)):
+            nm = r.choice(['add', 'add', 'add', 'discard', 'pop-first', 'pop-last', 'ior', 'isub', 'clear'])
+            if nm in ('add', 'discard'):
+                ops.append([nm, r.choice(univ)])
+            elif nm in ('ior', 'isub'):
+                ops.append([nm] + [r.choice(univ) for _ in range(r.randint(0, 4))])
+            else:
+                ops.append([nm])
+        yield {'cls': r.choice(['OrderedSet', 'QuerySet']), 'level': 'refl', 'ops': ops, 'left_kind': r.choice(LEFT_KINDS),
+               'left': [r.choice(univ) for _ in range(r.randint(0, 6))], 'binops': r.sample(BINOPS, r.randint(1, 4))}
+
+
+def search(ctx, broken):
+    """a tie to the source is broken: the D-only families of operand / comparison kinds first, then everything (enlarged)"""
+    for case in _refl_cases(ctx):
+        yield case
+    for case in generate(ctx):
+        if case.get('level') != 'refl':
+            yield case
+
+
+class _Nothing(object):
+    """no collection, not iterable - and falsy"""
+    def __bool__(self):
+        return False
+
+    def __repr__(self):
+        return '<a falsy object that is not iterable>'
+
+
+NONCOLL = [None, 0, False, 0.0, 0j, _Nothing(), 1, True, 2.5, object(), Ellipsis, int, len]
+N_FALSY = 6
+
+
+def _asked(f):
+    """the answer of a comparison as a bool; None when the comparison was refused (raised)"""
+    try:
+        return bool(f())
+    except Exception:
+        return None
+
+
+def _noncoll(s, items, step, fail, stats):
+    """`==` holds exactly for ordered collections with the same elements in the same order: never for something that is no
+    collection at all.  One of NONCOLL per step in rotation, all the falsy ones when the set is empty.  Refusing to compare
+    (TypeError) is not comparing equal."""
+    picks = [(step + len(items)) % len(NONCOLL)]
+    if not items:
+        picks = list(range(N_FALSY)) + [k for k in picks if k >= N_FALSY]
+    stats['noncoll_compared'] = stats.get('noncoll_compared', 0) + len(picks)
+    for j in picks:
+        x = NONCOLL[j]
+        got = [_asked(lambda: s == x), _asked(lambda: x == s), _asked(lambda: s != x), _asked(lambda: x != s)]
+        if got[0] or got[1] or got[2] is False or got[3] is False:
+            fail('eq-noncollection', 'the set holding %r compares EQUAL to %r, which is no collection at all (s == x: %r, x == s: %r, '
+                 's != x: %r, x != s: %r; None = the comparison was refused)' % (items, x, got[0], got[1], got[2], got[3]))
+            return
+
+
+def _holds(r, want, univ):
+    """does the result r of a set operation hold exactly the elements of the python set `want` (once each; len / in agree)?
+    -> (ok, what was seen); never raises, whatever r is"""
+    try:
+        rl = list(r)
+    except Exception as e:
+        return False, 'something that cannot be iterated (%s): %r' % (type(e).__name__, r)
+    try:
+        ok = set(rl) == want and len(rl) == len(want) and len(r) == len(want) and all((k in r) == (k in want) for k in univ)
+    except Exception as e:
+        return False, '%r (%s while looking at it)' % (rl, type(e).__name__)
+    return ok, '%r (len %d)' % (rl, len(r))
+
+
+_OPS = {'sub': operator.sub, 'and': operator.and_, 'or': operator.or_, 'xor': operator.xor}
+_SYM = {'sub': '-', 'and': '&', 'or': '|', 'xor': '^'}
+_KIND = {'list': list, 'tuple': tuple, 'set': set, 'frozenset': frozenset}
+
+
+def _reflected(nm, kind, elems, s, content, fail, univ):
+    """x OP s with x = kind(elems) a plain python collection: the result holds what the mathematical operation gives, x is left
+    alone (s is looked at by the caller).  `content` = the elements s holds according to the oracle."""
+    left = _KIND[kind](elems)
+    r = _OPS[nm](left, s)
+    a, b = set(elems), set(content)
+    want = {'sub': a - b, 'and': a & b, 'or': a | b, 'xor': a ^ b}[nm]
+    ok, seen = _holds(r, want, univ)
+    if not ok:
+        fail('rbinop-content', '%s(%r) %s <the set holding %r> gave %s, the mathematical result is %r'
+             % (kind, list(elems), _SYM[nm], list(content), seen, sorted(want)))
+    if left != _KIND[kind](elems):
+        fail('operand-changed', '%s(%r) %s <the set holding %r> changed its left operand to %r'
+             % (kind, list(elems), _SYM[nm], list(content), left))
+
+
+def _run_refl(case):
+    cls = getattr(_xtuml, case['cls'])
+    s = cls()
+    oracle, fails, done = [], [], []
+    univ = list(range(12))
+
+    def fail(sig, what):
+        fails.append({'sig': sig, 'what': '%s: %s after building the set by %s' % (case['cls'], what, dumps([[Sym(o[0])] + o[1:] for o in done]))})
+    for op in case['ops']:
+        nm, args = op[0], op[1:]
+        done.append(op)
+        if nm == 'ctor':
+            s = cls(list(args))
+            oracle = list(dict.fromkeys(args))
+        elif nm == 'add':
+            s.add(args[0])
+            if args[0] not in oracle:
+                oracle.append(args[0])
+        elif nm == 'discard':
+            s.discard(args[0])
+            oracle = [k for k in oracle if k != args[0]]
+        elif nm in ('pop-first', 'pop-last'):
+            if oracle:
+                s.pop(last=(nm == 'pop-last'))
+                oracle = oracle[:-1] if nm == 'pop-last' else oracle[1:]
+        elif nm == 'clear':
+            s.clear()
+            oracle = []
+        elif nm == 'ior':
+            s |= list(args)
+            oracle = oracle + [k for k in dict.fromkeys(args) if k not in oracle]
+        elif nm == 'isub':
+            s -= list(args)
+            oracle = [k for k in oracle if k not in args]
+        else:
+            raise ValueError(nm)
+    stats = {'fam_refl': 1, 'refl_' + case['left_kind']: 1}
+    if list(s) != oracle:
+        same = sorted(list(s)) == sorted(oracle)
+        fail('insertion-order' if same else 'content', 'the set iterates %r, an insertion-ordered mathematical set holds %r' % (list(s), oracle))
+    else:
+        for nm in case['binops']:
+            _reflected(nm, case['left_kind'], case['left'], s, oracle, fail, univ)
+            if list(s) != oracle or list(reversed(s)) != oracle[::-1] or len(s) != len(oracle):
+                fail('operand-changed', '%s(%r) %s s changed the set on the right from %r to %r / reversed %r / len %d'
+                     % (case['left_kind'], case['left'], _SYM[nm], oracle, list(s), list(reversed(s)), len(s)))
+                break
+    key = 'refl/%s/%s/%r/%s/%s' % (case['cls'], case['left_kind'], case['left'], ','.join(case['binops']),
+                                   dumps([[Sym(o[0])] + o[1:] for o in case['ops']]))
+    return {'obs': [], 'd_fail': fails[:3], 'nontrivial': bool(oracle) and bool(case['left']) and set(oracle) != set(case['left']),
+            'key': key, 'stats': stats, 'model_line': None}
 
 
 def _first_last(s, cls):
@@ -301,6 +489,7 @@ def _run_exotic(case):
     oracle = []
     fails = []
     done = []
+    xstats = {}
 
     def fail(sig, what):
         fails.append({'sig': sig, 'what': what + ' after ops %r' % (done,)})
@@ -376,8 +565,9 @@ def _run_exotic(case):
                 fail('first-last', 'first/last give %r for %r' % (fl, oracle))
         if not (s == list(oracle)) or (s != list(oracle)) or (len(oracle) > 1 and s == list(oracle[::-1])):
             fail('eq-spec', '== / != against lists of the same elements disagree for %r' % (oracle,))
+        _noncoll(s, list(oracle), len(done), fail, xstats)
     return {'obs': [], 'd_fail': fails[:3], 'nontrivial': len(case['ops']) > 2, 'key': 'exotic/%r' % (sorted(case.items()),),
-            'stats': {'fam_exotic': 1}, 'model_line': None}
+            'stats': dict(xstats, fam_exotic=1), 'model_line': None}
 
 
 INST_KINDS = ['Dog', 'Cat']        # two classes with the same attributes (two of a kind)
@@ -722,6 +912,8 @@ def run_impl(case):
         return _run_str(case)
     if case.get('level') == 'exotic':
         return _run_exotic(case)
+    if case.get('level') == 'refl':
+        return _run_refl(case)
     cls = getattr(_xtuml, case['cls'])
     # two of a kind: other sets of the same class live beside `s` - one built (from an iterable) BEFORE it, one (empty) AFTER
     # it, one copied from it half way; whatever happens to `s` must leave them alone, and what happens to them must leave `s`
@@ -739,6 +931,7 @@ def run_impl(case):
     reached2 = False
     other_kind = case.get('other', 'oset')
     ptr = case['level'] == 'ptr'
+    xstats = {}
 
     def fail(sig, what):
         fails.append({'sig': sig, 'what': what + ' after ops %s' % dumps([[Sym(o[0])] + o[1:] for o in case['ops'][:len(obs) + 1]])})
@@ -923,6 +1116,9 @@ def run_impl(case):
                     fail('binop-type', '%s returned a %s' % (nm, type(r).__name__))
                 if nm == 'or' and rl[:len(before)] != before:
                     fail('or-order', 'a | b does not start with a in a\'s order: %r' % (rl,))
+                # the same operation with the set on the RIGHT and a plain python collection on the left (D only; that `s` is
+                # left alone shows in the content observation below)
+                _reflected(nm, LEFT_KINDS[(step + len(args)) % 4], list(args), s, before, fail, U)
                 expect = bset
             elif nm == 'eq':
                 dupfree = len(set(args)) == len(args)
@@ -1037,13 +1233,14 @@ def run_impl(case):
             fail('first-last', 'first/last give %r for %r' % (fl, items))
         if len(items) >= 2:
             reached2 = True
+        _noncoll(s, items, step, fail, xstats)
         bystanders(step, op)
         # the same observables on both levels (the pointer level reads first / last / len / membership off the pointers)
         obs.append([res, items, rev, len(s), fl[0] if fl[0] is not None else Sym('none'),
                     fl[1] if fl[1] is not None else Sym('none')])
     key = '%s/%s/%s' % (case['cls'], case['level'], dumps([[Sym(o[0])] + o[1:] for o in case['ops']]))
     return {'obs': _norm(obs), 'd_fail': fails[:3], 'nontrivial': nontrivial, 'key': key,
-            'stats': {'ops': len(case['ops']), 'cases_' + case['level']: 1}}
+            'stats': dict(xstats, **{'ops': len(case['ops']), 'cases_' + case['level']: 1})}
 
 
 def _norm(x):
@@ -1085,3 +1282,8 @@ def shrink_candidates(case):
         c = dict(case)
         c['ops'] = ops[:i] + ops[i + 1:]
         yield c
+    if case.get('level') == 'refl':
+        for nm in case['binops'] if len(case['binops']) > 1 else ():
+            yield dict(case, binops=[nm])
+        for i in range(len(case['left'])):
+            yield dict(case, left=case['left'][:i] + case['left'][i + 1:])
